@@ -78,3 +78,6 @@ add('C29','model_checking','exhaustive enumeration of relay counts x leaf indice
 add('C30','model_checking','exhaustive enumeration of single-field proof mutations and duplicated-relay multisets on the real verifier',
  'Every alteration of leaf, index, sibling, target, root or level count must fail; every path through a zero-width range must be (invalid, replay) according to a reference range model.',
  'Mutation alphabet is single-field; zero-width reference model in the harness.')
+add('C33','model_checking','exhaustive enumeration of candidate populations x per-node eligibility states x session keys on the real NewSessionNodes, plus explicit-state BFS over real ABCI blocks with the dispatched session checked in every state',
+ 'Every assignment of {eligible, jailed, over the chain limit, other chain, gone} to n-1..n+3 candidates for n in 1..3 (5 thorough) and 6-16 session keys: same result twice, fails iff fewer than n eligible, exactly n distinct eligible nodes; the same oracle on the session dispatched by the real keeper in every chain state reached by a jail/unjail/edit/unstake menu.',
+ 'Population size <= 7; termination by 60 s watchdog; one application and chain on the real-keeper layer.')
